@@ -297,6 +297,8 @@ class WSGIRequestHandler(BaseHTTPRequestHandler):
                         or code in {204, 304}
                     )
                     and self.protocol_version >= "HTTP/1.1"
+                    # An HTTP/1.0 client does not understand chunked encoding.
+                    and self.request_version >= "HTTP/1.1"
                 ):
                     chunk_response = True
                     self.send_header("Transfer-Encoding", "chunked")
